@@ -141,6 +141,20 @@ def stop_shift(c):
     S_b = [c.val(x) for x in lens1.aberrations.seidels()]
     c.ensure_eq('C08.stop_shift.spherical_sum_independent_of_stop', S_a[0], S_b[0])
     c.ensure_eq('C08.stop_shift.petzval_sum_independent_of_stop', S_a[3], S_b[3])
+    # and the second query describes the lens as it is *now* (nothing remembered from the first one)
+    px = lens1.paraxial
+    ya, ua = [[c.val(x) for x in arr] for arr in px.marginal_ray()]
+    yb, ub = [[c.val(x) for x in arr] for arr in px.chief_ray()]
+    W, H = _welford(c, v, ya, ua, yb, ub, 4)
+    for w_ in W:
+        c.require(w_['A'] != 0)
+    tot = [0, 0, 0, 0, 0]
+    for w_ in W:
+        S5 = (w_['Ab'] / w_['A']) * (w_['S3'] + w_['S4'])
+        for i, val in enumerate((w_['S1'], w_['S2'], w_['S3'], w_['S4'], S5)):
+            tot[i] = tot[i] + val
+    for i in range(5):
+        c.ensure_eq('C08.requery_after_stop_move.seidel_%d' % (i + 1), S_b[i], -tot[i])
 
 
 @contract('C08.chromatic', [AB + ':Aberrations._TAchC_term', AB + ':Aberrations._TchC_term', AB + ':Aberrations.TAchC',
